@@ -112,7 +112,7 @@ func mkTextConf(r *Rand, infix bool) textConf {
 
 // a random literal-rich tree for the text layer (strings with spaces, brackets, semicolons, backslashes, line breaks, non-ASCII)
 var strLits = []string{"", "a", "a b", "x(y", "p)q", "s;t", `b\n`, "line\nbreak", "tab\there", "é λ", "[z]", "a,b", "  lead", "trail  ", `C:\tmp\`, "中文", "1 2 3", "(", ";", "\\",
-	"100% c", "%d %s %v", "50%", "%", "%%", "%!", "{}", "$1", "'q'", "`bt`", "#", "a\rb", "\x00z", "~", "&amp;", "<nil>", "true", "-5", "+", "!x"}
+	`C:\\temp\\new`, `\\\\`, `a\\tb`, `q\\"`[:3], `\u00e9`, "100% c", "%d %s %v", "50%", "%", "%%", "%!", "{}", "$1", "'q'", "`bt`", "#", "a\rb", "\x00z", "~", "&amp;", "<nil>", "true", "-5", "+", "!x"}
 
 func textTree(r *Rand, d int) *GT {
 	if d <= 0 || r.Intn(4) == 0 {
